@@ -28,6 +28,14 @@ func init() {
 
 const retention = 7777 // configured retention period (distinguishable from every requested ttl)
 const reqTTL = 100000
+const wideTTL = 3000000000 // >= 2^31, < 2^32-1 (the latter is the retain marker)
+
+func ttlOf(mode string) uint32 {
+	if strings.Contains(mode, "wide") {
+		return wideTTL
+	}
+	return reqTTL
+}
 
 type opDesc struct {
 	Kind  string // pub will
@@ -55,6 +63,8 @@ func alphabet() []opDesc {
 	}
 	// a message near the size limit: the store path, the reply-size cap and the replay must cope with it
 	ops = append(ops, opDesc{"pub", "a/b/", "retain+ttl+big", true})
+	// a ttl in the upper half of the 32-bit range the message's ttl field can hold
+	ops = append(ops, opDesc{"pub", "a/", "ttl+wide", true})
 	ops = append(ops, opDesc{"will", "a/", "retain", true}, opDesc{"will", "a/", "retain", false}, opDesc{"will", "a/b/", "plain", true})
 	return ops
 }
@@ -181,7 +191,7 @@ func (in *inst) Apply(i int) {
 	case "pub":
 		topic := key + "/" + in.pfx + o.Ch
 		if ttl {
-			topic += fmt.Sprintf("?ttl=%d", reqTTL)
+			topic += fmt.Sprintf("?ttl=%d", ttlOf(o.Mode))
 		}
 		if ttl0 {
 			topic += "?ttl=0"
@@ -209,7 +219,7 @@ func (in *inst) Apply(i int) {
 	if o.Store && (retain || ttl) {
 		want := uint32(retention)
 		if ttl {
-			want = reqTTL
+			want = ttlOf(o.Mode)
 		}
 		in.model = append(in.model, stored{Ch: o.Ch, Payload: payload, TTL: want})
 	}
